@@ -60,6 +60,16 @@ func (p *Protocol) UnmarshalText(textBytes []byte) error {
 	return nil
 }
 
+// ensureNotOptionLike verifies that a URL component that will be passed as (the
+// start of) a command line argument to an external command (ssh, scp, docker)
+// can't be mistaken for a command line option by that command.
+func ensureNotOptionLike(component, description string) error {
+	if len(component) > 0 && component[0] == '-' {
+		return fmt.Errorf("%s begins with '-'", description)
+	}
+	return nil
+}
+
 // EnsureValid ensures that URL's invariants are respected.
 func (u *URL) EnsureValid() error {
 	// Ensure that the URL is non-nil.
@@ -93,6 +103,10 @@ func (u *URL) EnsureValid() error {
 			return errors.New("SSH URL with invalid port")
 		} else if len(u.Environment) != 0 {
 			return errors.New("SSH URL with environment variables")
+		} else if err := ensureNotOptionLike(u.User, "SSH username"); err != nil {
+			return err
+		} else if err := ensureNotOptionLike(u.Host, "SSH hostname"); err != nil {
+			return err
 		}
 	} else if u.Protocol == Protocol_Docker {
 		// In the case of Docker, we intentionally avoid validating environment
@@ -104,6 +118,10 @@ func (u *URL) EnsureValid() error {
 			return errors.New("Docker URL with empty container identifier")
 		} else if u.Port != 0 {
 			return errors.New("Docker URL with non-zero port")
+		} else if err := ensureNotOptionLike(u.User, "Docker username"); err != nil {
+			return err
+		} else if err := ensureNotOptionLike(u.Host, "Docker container identifier"); err != nil {
+			return err
 		}
 	} else {
 		return errors.New("unknown or unsupported protocol")
